@@ -335,11 +335,13 @@ def _nested(spec, tid):
         out["construct_msg"] = str(e)[:200]
         _log("nested_construct", tid=tid, res=out["construct"], depth=out["depth"])
         return ["nested", tid, out]
-    _log("nested_construct", tid=tid, res="ok", depth=out["depth"])
-    if spec.get("default_method"):
-        from loky.backend import context as lctx
+    finally:
+        if spec.get("default_method"):
+            # whatever the outcome: the process-wide default must not leak into later tasks of this (reused) worker
+            from loky.backend import context as lctx
 
-        lctx.set_start_method(None, force=True)
+            lctx.set_start_method(None, force=True)
+    _log("nested_construct", tid=tid, res="ok", depth=out["depth"])
     out["sub"] = _run_subs(ex, spec, tid)
     return ["nested", tid, out]
 
